@@ -8,7 +8,7 @@ for n in list(range(0, 41)) + [47, 48, 49, 63, 64, 65, 72]:
                   tiers=(["quick", "thorough"] if n <= 24 or n in (31, 32, 33, 40, 64, 65) else ["thorough"]),
                   mutants=[dict(id="C19b", file="util/random/rand.go", old="\tif highbits != 0 {\n\t\tb[0] &= ^(0xff << highbits)\n\t}", new="\t_ = highbits")] if n in (3, 12) else []))
 for mod in [1, 2, 3, 5, 7, 8, 9, 15, 16, 17, 100, 127, 128, 129, 255, 256, 257, 1000, 32767, 32768, 65535, 65536, 65537]:
-    H.append(dict(name="Int-%d" % mod, pkg=PKG, files=F, entry="HarnessInt", mode="int", params={"p0": mod}, unwind=64, loop_assume={"Int": 3}, no_replay=True,
+    H.append(dict(name="Int-%d" % mod, pkg=PKG, files=F, entry="HarnessInt", mode="int", params={"p0": mod}, unwind=64, loop_assume={"Int": 3}, validate=4,
                   functions=["random.Int", "compatible.(*Int).SetBytesWithCheck", "compatible.(*Int).SetBytes", "random.Bits"],
                   stubs=["math/big.Int modelled as a mathematical integer (SetBytes, Cmp, BitLen, Sign, Int64)"],
                   bound="modulus %d, all stream bytes, at most 3 rejection rounds (unwinding assertion)" % mod,
